@@ -95,12 +95,13 @@ static void one_config(int T, int dispatch, int setting, const char *bdesc) {
     if (setting == 1) { settings.window = 2; settings.psi_1b = settings.psi_1e = settings.psi_2b = settings.psi_2e = 1; settings.penalty = 0.5; }
     if (setting == 2) { settings.use_pruning = true; }
     if (setting == 3) { settings.max_dist = 2.5; settings.psi_1b = 1; }
+    if (failed_cfgs >= 30) { caps++; return; }   /* enough counterexamples for this group */
     for (int i = 0; i < 64; i++) ref[i] = -7.0;
+    vomp_begin(NULL, 0);            /* fresh arena for the serial reference run */
     reflen = call(0, ref);
     snprintf(cfgdesc, sizeof cfgdesc, "entry=%d n=%d block=%s T=%d dispatch=%d setting=%d bound=%d", entry, n, bdesc, T, dispatch, setting, bound);
     vomp_config(T, dispatch);
     vomp_clear_conflicts();
-    if (failed_cfgs >= 30) { caps++; return; }   /* enough counterexamples for this group */
     configs++;
     cfg_execs = 0;
     cfg_failed = 0;
